@@ -108,7 +108,7 @@ func run(c Case) (res ev.Result) {
 			case "note":
 				// all seven kinds of channel message (note-on also with velocity 0), each message
 				// unique through its channel / kind / data bytes
-				ch, rest := byte(ti&15), id/8
+				ch, rest := byte((ti+id/8)&15), id/8 // all 16 channels
 				var msg []byte
 				switch id % 8 {
 				case 0:
